@@ -1521,7 +1521,15 @@ func (h *fsmHandler) opensent(ctx context.Context) (bgp.FSMState, *fsmStateReaso
 	for {
 		select {
 		case <-ctx.Done():
-			fsm.conn.Close()
+			// RFC 4271 8.2.2: ManualStop in OpenSent/OpenConfirm sends a
+			// NOTIFICATION with a Cease before the connection is dropped.
+			select {
+			case m := <-fsm.deconfiguredNotification:
+				// fsm.sendNotification closes the connection.
+				_ = fsm.sendNotification(fsm.conn, m)
+			default:
+				fsm.conn.Close()
+			}
 			return -1, newfsmStateReason(fsmDying, nil, nil)
 		case conn, ok := <-fsm.connCh:
 			if !ok {
@@ -1637,8 +1645,10 @@ func (h *fsmHandler) opensent(ctx context.Context) (bgp.FSMState, *fsmStateReaso
 			if err == nil {
 				switch stateOp.State {
 				case adminStateDown:
-					fsm.conn.Close()
-					return bgp.BGP_FSM_IDLE, newfsmStateReason(fsmAdminDown, nil, nil)
+					// RFC 4271 8.2.2: ManualStop sends a NOTIFICATION with a Cease.
+					m := bgp.NewBGPNotificationMessage(bgp.BGP_ERROR_CEASE, bgp.BGP_ERROR_SUB_ADMINISTRATIVE_SHUTDOWN, stateOp.Communication)
+					_ = fsm.sendNotification(fsm.conn, m)
+					return bgp.BGP_FSM_IDLE, newfsmStateReason(fsmAdminDown, m, nil)
 				case adminStateUp:
 					h.fsm.logger.Error("code logic bug",
 						slog.String("State", fsm.state.String()),
@@ -1700,7 +1710,15 @@ func (h *fsmHandler) openconfirm(ctx context.Context) (bgp.FSMState, *fsmStateRe
 	for {
 		select {
 		case <-ctx.Done():
-			fsm.conn.Close()
+			// RFC 4271 8.2.2: ManualStop in OpenSent/OpenConfirm sends a
+			// NOTIFICATION with a Cease before the connection is dropped.
+			select {
+			case m := <-fsm.deconfiguredNotification:
+				// fsm.sendNotification closes the connection.
+				_ = fsm.sendNotification(fsm.conn, m)
+			default:
+				fsm.conn.Close()
+			}
 			return -1, newfsmStateReason(fsmDying, nil, nil)
 		case conn, ok := <-fsm.connCh:
 			if !ok {
@@ -1764,8 +1782,10 @@ func (h *fsmHandler) openconfirm(ctx context.Context) (bgp.FSMState, *fsmStateRe
 			if err == nil {
 				switch stateOp.State {
 				case adminStateDown:
-					fsm.conn.Close()
-					return bgp.BGP_FSM_IDLE, newfsmStateReason(fsmAdminDown, nil, nil)
+					// RFC 4271 8.2.2: ManualStop sends a NOTIFICATION with a Cease.
+					m := bgp.NewBGPNotificationMessage(bgp.BGP_ERROR_CEASE, bgp.BGP_ERROR_SUB_ADMINISTRATIVE_SHUTDOWN, stateOp.Communication)
+					_ = fsm.sendNotification(fsm.conn, m)
+					return bgp.BGP_FSM_IDLE, newfsmStateReason(fsmAdminDown, m, nil)
 				case adminStateUp:
 					fsm.logger.Error("code logic bug",
 						slog.String("State", fsm.state.String()),
